@@ -378,7 +378,12 @@ def run(doc, log):
                 cu = np.linalg.cond(Muu) if Muu.size else 1.0
                 mass_u_singular = bool(not np.isfinite(cu) or cu > 1e10)
             cls = "singular-stiffness" if k_singular else ("singular-mass" if mass_u_singular else "regular-stiffness")
-            if cls != "regular-stiffness":
+            if cls == "regular-stiffness" and len(du_) < len(dof1):
+                # free unknowns of dual fields (pressure, volume ratio) carry no mass: the mass matrix of
+                # the pencil is singular although every displacement unknown has mass (third open known
+                # finding: one returned vector can carry a component of the null space of M)
+                cls = "massless-dual-unknowns"
+            if cls in ("singular-stiffness", "singular-mass"):
                 # the two open known findings: what shift-invert ARPACK returns for a singular operator is
                 # not even reproducible run to run with the same start vector (seen: 1 of 4 fresh
                 # interpreters differs); the determinism self-check compares only the event digests then
